@@ -26,7 +26,9 @@ REQUIRED_COUNTERS = ['surplus_transfer', 'exhausted_pile_gt_candidate', 'shared_
                      'exhausted_several_quotas', 'overcount_correction', 'prev_absent_party', 'cap_reached_cumulatively',
                      'quota_callable', 'quota_constant', 'quota_none', 'transferer_by_name', 'retainer_plurality', 'step_positive',
                      'step_none', 'sens_accept_equal', 'sens_mandatory_quota', 'sens_eliminate_step', 'warmup_refusal',
-                     'warmup_larger', 'warmup_other_n', 'warmup_big']
+                     'warmup_larger', 'warmup_other_n', 'warmup_big',
+                     # no returned state may be changed by a later call
+                     'reexhaust_trace', 'reexhaust_nth', 'count_taken_twice', 'nth_snapshot_checked']
 RULE = ('(audited against harness/GENERATOR_CHECKLIST.md) ranked profiles over 1-6 candidates, 1-10 ballot types (truncated, shared ranks, empty ballots, zero-first-preference '
         'candidates), weights from a tie-forcing small set / Fractions / integers up to 10^20, n_seats 1..#candidates, Gregory and '
         'Hare(seed) transfer, quota droop / hare / hagenbach_bischoff / None, accept_quota_equal, mandatory_quota, eliminate_step '
@@ -108,14 +110,31 @@ def _run_next(case):
     maxs = seats_dict(case.get('max'))
     total = num(case['total'])
 
+    twice = not (case['method'] == 'hare' and case.get('transferer_form') == 'name')      # an unseeded Hare draws anew
+
     def call(d, s):
-        return d.next_count(alloc, case['n'], total, prev_gains=dict(prev), max_seats=dict(maxs))
+        r1 = d.next_count(alloc, case['n'], total, prev_gains=dict(prev), max_seats=dict(maxs))
+        if twice:
+            # the same count once more from the very same state object
+            d.next_count(alloc, case['n'], total, prev_gains=dict(prev), max_seats=dict(maxs))
+        return r1
     res, counts, draws, bad, msg = record_run(case, call)
     if isinstance(res, dict) and 'err' in res:
-        return {'err': res['err'], '_draws': draws, '_bad_draws': bad, '_msg': msg}
-    rec = counts[-1]
+        return {'err': res['err'], '_draws': draws, '_bad_draws': bad, '_msg': msg, '_detail': counts}
+    rec = counts[0]
+    repeat = None
+    if twice and len(counts) >= 2:
+        _tag(case, 'count_taken_twice')
+        r2 = counts[1]
+        if 'err' in r2:
+            repeat = f"the second time the count raised {r2['err']}"
+        else:
+            for k in ('alloc_in', 'alloc', 'elected', 'shortcut', 'eliminated'):
+                if json.dumps(rec[k]) != json.dumps(r2[k]):
+                    repeat = f'{k} differs the second time: {rec[k]} then {r2[k]}'
+                    break
     return {'alloc': rec['alloc'], 'elected': rec['elected'], 'eliminated': rec['eliminated'], 'shortcut': rec['shortcut'],
-            'quota': rec['quota'], '_draws': draws, '_bad_draws': bad}
+            'quota': rec['quota'], '_draws': draws, '_bad_draws': bad, '_detail': counts, '_repeat': repeat}
 
 
 def _run_nth(case):
@@ -153,6 +172,8 @@ def impl(case):
     elif case['op'] == 'stv_nth':
         obs = _run_nth(case)
         _tag(case, 'stv_nth')
+        if _grows_existing_exhausted((obs.get('_detail') or [])[-1:]):
+            _tag(case, 'reexhaust_nth')     # the last executed count adds to an exhausted pile of the reported state
     else:
         raise ValueError(case['op'])
     obs, leak = defloat(obs)
@@ -211,6 +232,8 @@ def _retag_trace(case, obs):
         _tag(case, 'step_positive')
     if case.get('warmup'):
         _tag(case, 'warmup_' + case.get('_warm_kind', 'x'))
+    if _grows_existing_exhausted(obs['_detail']):
+        _tag(case, 'reexhaust_trace')
     if case.get('form', 'selector') != 'selector' and any(c not in profile_cands(case['votes']) for c, _ in case.get('prev') or []):
         _tag(case, 'prev_absent_party')
     times = {}
@@ -353,10 +376,29 @@ def _overshoot(case, detail):
     return overshoot
 
 
+def _mutation_clauses(obs, out):
+    for rec in obs.get('_detail') or []:
+        if rec.get('mutated'):
+            out.append(('state_changed_after_return', rec['mutated'][:400]))
+            break
+
+
+def _grows_existing_exhausted(detail):
+    """a count in which ballots exhaust although an exhausted pile already exists"""
+    for rec in detail:
+        if 'err' in rec or rec.get('shortcut'):
+            continue
+        t_in, t_out = _totals(rec['alloc_in']), _totals(rec['alloc'])
+        if None in t_in and t_in[None] > 0 and t_out.get(None, 0) > t_in[None]:
+            return True
+    return False
+
+
 def _oracle_trace(case, obs):
     out = []
     if obs['_bad_draws']:
         out.append(('float_in_exact_path' if obs['_bad_draws'][0].startswith('float in') else 'draw_contract', obs['_bad_draws'][0]))
+    _mutation_clauses(obs, out)
     res = obs['result']
     overshoot = _overshoot(case, obs['_detail'])
     allowed = _allowed_errors(case)
@@ -430,10 +472,13 @@ def _oracle_next(case, obs):
     out = []
     if obs.get('_bad_draws'):
         out.append(('float_in_exact_path' if obs['_bad_draws'][0].startswith('float in') else 'draw_contract', obs['_bad_draws'][0]))
+    _mutation_clauses(obs, out)
     if 'err' in obs:
         if obs['err'] not in (_allowed_errors(case) - {'VotingSystemError'}):
             out.append(('unexpected_error', f"{obs['err']}: {obs.get('_msg')}"))
         return out
+    if obs.get('_repeat'):
+        out.append(('count_not_repeatable', obs['_repeat'][:400]))
     _check_count(case, case['alloc'], dict((c, k) for c, k in case.get('prev') or []), obs, out, 'count')
     if not obs['shortcut']:
         _check_state(obs['alloc'], out, 'after count')
@@ -451,6 +496,25 @@ def oracle(case, obs):
     if ('err' in obs and obs['err'] not in _allowed_errors(case)
             and not _overshoot(case, obs.get('_detail', []))):
         out.append(('unexpected_error', obs['err']))
+    _mutation_clauses(obs, out)
+    detail = [r for r in obs.get('_detail') or []]
+    if 'totals' in obs and detail and not _overshoot(case, detail):
+        # nth_count reports the state its last executed count started from, as that state was when the count began
+        _tag(case, 'nth_snapshot_checked')
+        want = [[h, str(t)] for h, t in _totals(detail[-1]['alloc_in']).items()]
+        got = [[h, str(Fraction(t))] for h, t in obs['totals']]
+        if got != want:
+            out.append(('nth_count_snapshot', f'nth_count reports {got}; the state before count {len(detail)} was {want}'))
+        # ... and the votes it reports still add up: held + empty ballots + quota x seats filled by quota before that count
+        votes = [(b, Fraction(w)) for b, w in case['votes']]
+        V = sum((w for _, w in votes), Fraction(0))
+        empty = sum((w for b, w in votes if not b), Fraction(0))
+        by_quota = sum(k for r in detail[:-1] if 'err' not in r and not r['shortcut'] for _, k in r['elected'])
+        qs = [Fraction(r['quota']) for r in detail if r.get('quota') is not None]
+        spent = qs[0] * by_quota if (qs and by_quota) else 0
+        if (qs or not by_quota) and sum((Fraction(t) for _, t in obs['totals']), Fraction(0)) + empty + spent != V:
+            out.append(('conservation', f'nth_count({case["k"]}) reports {got}: with {empty} empty and {by_quota} x quota '
+                                        f'{qs[0] if qs else None} this is not the {V} votes cast'))
     return out
 
 
@@ -782,6 +846,16 @@ def _audit_directed(rng):
                           **dict(base, step=st))
     for mq in (False, True):
         yield _trace_case(rng, ['directed', 'sens_mandatory_quota'], votes=[[[0], '5'], [[1], '2'], [[2], '1']], n=2, **dict(base, mandatory=mq))
+    # 6. no returned state may be changed by a later call: ballots exhaust while an exhausted pile exists from an earlier count;
+    #    the run, every nth_count snapshot of it, and a count taken twice from a state with an exhausted pile
+    for method, seed in (('gregory', 0), ('hare', 5)):
+        rv = reexhaust_profile(rng)
+        yield _trace_case(rng, ['directed'], votes=rv, n=2, **dict(base, method=method, seed=seed))
+        for k in range(1, 6):
+            c = _trace_case(rng, ['directed'], votes=rv, n=2, **dict(base, method=method, seed=seed))
+            c.update({'op': 'stv_nth', 'k': k})
+            yield c
+    yield _state_case(rng, ['directed'], big_exhausted=True, method='gregory', quota='droop', mandatory=False, step=-1)
     # 6. state between calls: the same object counts another election first
     for kind in ('refusal', 'larger', 'other_n', 'big'):
         c = _trace_case(rng, ['directed'], m=4, shared_p=0.15, **base)
@@ -874,7 +948,11 @@ def shrink_candidates(case):
 
 
 def describe(case):
-    return describe_case(case)
+    d = describe_case(case)
+    if case.get('op') == 'stv_nth':
+        d = d.replace('.evaluate(', '.nth_count(', 1)
+        d = d[:-1] + f", count_number={case['k']})" if case.get('form', 'selector') == 'selector' else d + f"  [nth_count, count_number={case['k']}]"
+    return d
 
 
 TECHNIQUE = ('Lean 4 proof of the per-count invariants of the STV count (unbounded number of candidates, ballots and counts) + '
